@@ -381,9 +381,9 @@ func run(c *core.Ctx) {
 	for i, o := range ops {
 		names[i] = o.String()
 	}
-	depth := 3
+	depth := 4
 	if !c.Quick() {
-		depth = 5
+		depth = 6
 	}
 	n := core.NumWorkers()
 	envs := make([]*wenv, n)
